@@ -11,6 +11,7 @@ from ..models import si_table as SI
 from ..models import rounding as RM
 from ..models.world import predefined_world
 from ..oracle import brief, check_ctor_events
+from ..ops import derived
 from .c05 import tie_amount
 
 RULE = ("quantities of quantized (DataVolume, Money, synthetic) and "
@@ -85,7 +86,8 @@ def alloc_sub(chk, rng, w, wid, mode, plan=None):
         kw["disperse_rounding_error"] = ["b", False]
     elif rng.random() < 0.5:
         kw["disperse_rounding_error"] = ["b", True]
-    body = [{"id": "q", "k": "q", "e": Q(enc_amount(rng, x, ("D", "F"))[0], u)},
+    body = [{"id": "q", "k": "q", "e": derived(rng, Q(enc_amount(
+        rng, x, ("D", "F"))[0], u), u)},
             {"k": "r", "e": ["m", V("q"), "allocate", args, kw]},
             {"k": "after", "e": V("q")},
             {"k": "again", "e": ["m", V("q"), "allocate", args, kw]}]
